@@ -140,3 +140,28 @@ def enumerate_graphs(n, cyclic=False):
         for bsel in itt.product([0, 1], repeat=len(pairs)):
             bi = [[u, v] for (u, v), s in zip(pairs, bsel) if s]
             yield {"nodes": list(range(n)), "di": di, "bi": bi}
+
+
+# ------------------------------------------------------------------------------------------ mixed names (added by sepG)
+# A second ORDER-PRESERVING name table (int order == Python string order of the names, so every model that works in
+# integer space stays valid) whose names differ in length, case and suffix style: `X1 < X10 < X2`, upper case before
+# `_` before lower case, one-letter names beside five-letter ones.  A sort by (len, name), a case-insensitive sort, a
+# numeric-suffix sort, a comparison of `str(v)` prefixes or a fixed-width assumption gives another order here, while
+# `A00..A99` hides all of them.
+MIXED_NAMES = sorted(["B", "Ba", "C1", "C10", "C2", "D_1", "Da", "M", "M0", "Ma", "X", "X1", "X10", "X2", "X_1", "Xa",
+                      "Y", "Z9", "Z_10", "Z_2", "a", "aB", "ab", "b", "b0", "c", "w1", "w10", "w2", "y", "z", "zz"])
+
+
+def vname_mixed(i: int) -> str:
+    return MIXED_NAMES[i]
+
+
+def mixed_to_int(name: str) -> int:
+    return MIXED_NAMES.index(name)
+
+
+def table(names: str | None):
+    """(int -> name, Variable -> int) of the name table called `names` (None / 'plain' = A%02d, 'mixed' = MIXED_NAMES)"""
+    if names == "mixed":
+        return vname_mixed, (lambda v: mixed_to_int(v.name))
+    return vname, vint
